@@ -125,9 +125,6 @@ def local_update(check):
     for c in classes:
         stepf = proj.resolve(c, "step")
         loc = stepf.loc() if stepf else c.loc()
-        if c.name not in rk.NOMINAL_ORDER:
-            check.undecided("DT-LOCAL", c.qualname, "integrator class unknown to the checker's table", loc)
-            continue
         try:
             ai, outs = run_step(proj, c)
             T = rk.extract(outs[0], c.name)
